@@ -122,7 +122,12 @@ where
             // demand of the task under analysis
             let self_interference = tua_rbf.service_needed(A.closed_since_time_zero());
 
-            let tua_demand = self_interference - rem_cost;
+            // The search space also contains offsets that stem from the
+            // other tasks' steps. If the arrival curve of the task under
+            // analysis admits no arrival in an interval of length A + 1
+            // (e.g., a sparse approximated Poisson process), there is no
+            // demand to subtract from (truncated subtraction, as in Prosa).
+            let tua_demand = self_interference.saturating_sub(rem_cost);
 
             // demand of all interfering tasks
             let bound_on_total_hep_workload: Service = other_tasks
